@@ -185,14 +185,14 @@ theorem rest_good {d : Nat} {L : List ℚ} {c : CObj ℚ} (hwf : WFC d c) (hr : 
 terms cancel) -/
 theorem dipoleCoord_centre (l c dir s : ℚ) (hl : 0 < l) :
     Cong l (2 * c) ((dipoleCoord Ops.rat l c dir s).1 + (dipoleCoord Ops.rat l c dir s).2) := by
-  simp only [dipoleCoord, pymod_rat_pos _ _ hl]
+  simp only [dipoleCoord, pywrap_rat_pos _ _ hl]
   exact ⟨⌊(c + dir * s) / l⌋ + ⌊(c - dir * s) / l⌋, by push_cast; ring⟩
 
 /-- water, one coordinate: `3 · centre ≡ hydrogen_one + oxygen + hydrogen_two (mod L)`
 (`oxygen = centre − (a + b)/3`, `hydrogen_k = oxygen + oh_vector_k`) -/
 theorem waterCoord_centre (l c a b : ℚ) (hl : 0 < l) :
     Cong l (3 * c) ((waterCoord Ops.rat l c a b).1 + (waterCoord Ops.rat l c a b).2.1 + (waterCoord Ops.rat l c a b).2.2) := by
-  simp only [waterCoord, pymod_rat_pos _ _ hl, rat_ofInt]
+  simp only [waterCoord, pywrap_rat_pos _ _ hl, rat_ofInt]
   exact ⟨⌊(c - (a + b) / ((3 : ℤ) : ℚ) + a) / l⌋ + ⌊(c - (a + b) / ((3 : ℤ) : ℚ)) / l⌋ + ⌊(c - (a + b) / ((3 : ℤ) : ℚ) + b) / l⌋, by
     push_cast; ring⟩
 
